@@ -1,6 +1,7 @@
 import CuriesVerif.Codec
 import CuriesVerif.Model.Loaders
 import CuriesVerif.Model.Reconcile
+import CuriesVerif.Model.Discovery
 
 /-!
 # Operation histories over converter slots
@@ -19,6 +20,8 @@ inductive Step where
   | chain (dst : Nat) (srcs : List Nat) (cs : Bool)
   | sub (dst src : Nat) (prefixes : List Str)
   | query (c : Nat) (q : Query)
+  | discover (dst : Nat) (src : Option Nat) (delims : List Str) (cutoff : Option Nat) (metaprefix : Str)
+      (uris : List Str) (alnum : List Nat)
   | remapCurie (dst src : Nat) (rm : List (Str × Str))
   | remapUri (dst src : Nat) (rm : List (Str × Str))
   | rewire (dst src : Nat) (rm : List (Str × Str))
@@ -104,6 +107,13 @@ def Step.exec (fold : Str → Str) (s : Slots) : Step → Slots × Val
     match s.get? ci with
     | none => (s, .bad "no such slot")
     | some c => (s, c.run q)
+  | .discover dst src delims cutoff metaprefix uris alnum =>
+    match (match src with | some i => (s.get? i).map some | none => some none) with
+    | none => (s, .bad "no such slot")
+    | some conv =>
+      match Discovery.discover (fun n => alnum.contains n) conv delims cutoff metaprefix uris with
+      | .ok c => (s.put dst c, .none)
+      | .error e => (s, .err e)
   | .remapCurie dst src rm => derive s dst src (Reconcile.remapCuriePrefixes · rm)
   | .remapUri dst src rm => derive s dst src (Reconcile.remapUriPrefixes · rm)
   | .rewire dst src rm => derive s dst src (Reconcile.rewire · rm)
@@ -160,6 +170,16 @@ def step (j : Json) : D Step := do
     pure (.chain (← nat "dst") srcs (boolD j "cs" true))
   | "sub" => pure (.sub (← nat "dst") (← nat "src") (← strs (← j.getObjVal? "prefixes")))
   | "q" => pure (.query (← nat "c") (← query j))
+  | "discover" => do
+    let src ← match fieldD j "src" .null with
+      | .null => pure none
+      | x => some <$> x.getNat?
+    let cutoff ← match fieldD j "cutoff" .null with
+      | .null => pure none
+      | x => some <$> x.getNat?
+    let alnum ← (← (fieldD j "alnum" (.arr #[])).getArr?).toList.mapM (·.getNat?)
+    pure (.discover (← nat "dst") src (← strs (fieldD j "delims" (.arr #[]))) cutoff
+      (← str (fieldD j "metaprefix" (.arr #[110, 115]))) (← strs (← j.getObjVal? "uris")) alnum)
   | "remap_curie" => pure (.remapCurie (← nat "dst") (← nat "src") (← pairs (← j.getObjVal? "mapping")))
   | "remap_uri" => pure (.remapUri (← nat "dst") (← nat "src") (← pairs (← j.getObjVal? "mapping")))
   | "rewire" => pure (.rewire (← nat "dst") (← nat "src") (← pairs (← j.getObjVal? "mapping")))
